@@ -1,11 +1,24 @@
 import LexVerif.Proof.Numeral
 import LexVerif.Spec.ParseInt
+import LexVerif.Proof.RoundTripFlags
+import LexVerif.Proof.RoundTripSpecial
+import LexVerif.Proof.RoundTripValue
+import LexVerif.Proof.RoundTripModel
+import LexVerif.Proof.RoundTripSepFree
+import LexVerif.Props.C18
 /-!
 # C08 — what lexical writes, lexical parses back (property theorems)
 
 Integer round trip on the specification level: scanning the canonical numeral of `n` yields `n`.
 Together with `C03` (writer model = numeral) and `C04` (parser model = scan) this is the integer half of
 the property for plain formats.
+
+Float half, on the model level (second part of this file): what the float writer model emits for a decimal format is
+derived *in full* by the documented grammar of the same format (`Spec.grammarFloatComplete`) as a number whose
+literal carries exactly the rounded digits and the carried exponent (`roundtrip_float_shape`), specials and signed
+zeros come back as themselves (`roundtrip_special`, `roundtrip_signed_zero`), and with the writer's digits equal to
+`Spec.shortest` the parsed bits are the written bits (`roundtrip_decimal_value`).  The grammar is related to the
+parser model by `Props/C12.lean`; the writer's buffer model to `writeDecimal` by `Proof.WriteFloatDragon.decimalB_bytes`.
 -/
 namespace LexVerif.Props.C08
 open LexVerif.Spec
@@ -116,5 +129,422 @@ theorem roundtrip_int_spec (t : IntTy) (r : Nat) (hr2 : 2 ≤ r) (hr : r ≤ 36)
 
 /-- non-vacuity: i8, radix 10, v = -128 -/
 example : parseInt ⟨8, true⟩ 10 false ([45] ++ numeral 10 128) = .ok (-128) 4 := by decide
+
+/-! # The float half: writer model → documented grammar -/
+
+open LexVerif.Model LexVerif.Model.WriteFloat LexVerif.Proof.RoundTrip LexVerif.Proof.RoundNE
+
+/-- **compatible option pair**: each option set passes its own builder (`OptionsBuilder::build` of
+`lexical-write-float` = `wOptsError`, of `lexical-parse-float` = `optionsError`; the digit limits are `NonZero`), the
+pair agrees on decimal point, exponent character and special strings, and the two characters pass the documented
+punctuation check of the format (`is_valid_options_punctuation`, which the parser's entry points assert). -/
+structure OptionsAgree (feats : Features) (fmt : Format) (wo : WOpts) (po : POpts) : Prop where
+  dp : wo.dp = po.dp
+  exp : wo.exp = po.exp
+  nan : wo.nan = po.nan
+  inf : wo.inf = po.inf
+  writeValid : wOptsError wo = none
+  nonZero : wo.maxDigits ≠ some 0 ∧ wo.minDigits ≠ some 0
+  parseValid : optionsError po = none
+  punctuation : OptionsPunctuationValid feats (unpack fmt.raw) po.exp po.dp
+
+/-- the sign `write_float` puts in front: `-` for a negative value, `+` only when the format requires it -/
+def writerSign (feats : Features) (fmt : Format) (neg : Bool) : List Nat := signBytes (mantSign feats fmt neg)
+
+theorem writerSign_eq (feats : Features) (fmt : Format) (neg : Bool) :
+    writerSign feats fmt neg =
+      (if neg then [45] else if feats.format ∧ fmt.requiredMantissaSign then [43] else []) := by
+  unfold writerSign mantSign mantPlus signBytes
+  cases neg <;> cases feats.format <;> cases fmt.requiredMantissaSign <;> simp
+
+/-- **`roundtrip_float_shape`** — for every valid decimal format (any flags, any exponent radix), every compatible
+option pair, every canonical digit string and scientific exponent and either sign: the bytes of the writer model
+(`write_float`'s sign followed by the decimal back-end selected by the feature set, `algorithm.rs` or `compact.rs`)
+are derived by the documented grammar of the same format, in full, as a **number** whose literal has the sign written,
+and whose digits are the rounded digits (between zeros that do not change the value) at the carried exponent.
+The only exclusion is `PrefixClear` (a case-insensitive base prefix equal, up to case, to the decimal point or the
+exponent character: `finding_prefix_case`); for a case-sensitive prefix it follows from the option validity
+(`prefixClear_of_cased`). -/
+theorem roundtrip_float_shape (feats : Features) (fmt : Format) (wo : WOpts) (po : POpts) (ds : List Nat) (sci : Int)
+    (neg : Bool) (hv : FormatValid feats (unpack fmt.raw)) (h10 : fmt.mantissaRadix = 10)
+    (ha : OptionsAgree feats fmt wo po) (hin : WriterInput ds sci) (hclear : PrefixClear feats fmt po.dp po.exp) :
+    ∃ l : FloatLit,
+      grammarFloatComplete feats fmt po (writerSign feats fmt neg ++ writeDecimal fmt feats ds sci wo) =
+        .num l (writerSign feats fmt neg ++ writeDecimal fmt feats ds sci wo).length ∧
+      l.neg = neg ∧
+      DigitsForm l.intDigits l.fracDigits l.exp (truncateAndRound ds wo).1
+        (sci + (if (truncateAndRound ds wo).2 then 1 else 0)) :=
+  writeDecimal_accepted feats fmt wo po ds sci neg hv h10 ha.dp ha.exp ha.punctuation ha.nonZero.1 hin hclear
+
+/-- the exact value of the literal read back: `digits'·10^(sci' − len + 1)` with `(digits', sci')` from
+`truncateAndRound` (the min-digit padding only appends zeros) -/
+theorem roundtrip_float_exact_value (feats : Features) (fmt : Format) (wo : WOpts) (po : POpts) (ds : List Nat)
+    (sci : Int) (neg : Bool) (hv : FormatValid feats (unpack fmt.raw)) (h10 : fmt.mantissaRadix = 10)
+    (ha : OptionsAgree feats fmt wo po) (hin : WriterInput ds sci) (hclear : PrefixClear feats fmt po.dp po.exp) :
+    ∃ l : FloatLit,
+      grammarFloatComplete feats fmt po (writerSign feats fmt neg ++ writeDecimal fmt feats ds sci wo) =
+        .num l (writerSign feats fmt neg ++ writeDecimal fmt feats ds sci wo).length ∧
+      l.neg = neg ∧
+      (ofDigits 10 (l.intDigits ++ l.fracDigits) : ℚ) * (10 : ℚ) ^ (l.exp - (l.fracDigits.length : Int)) =
+        (ofDigits 10 (truncateAndRound ds wo).1 : ℚ) *
+          (10 : ℚ) ^ (sci + (if (truncateAndRound ds wo).2 then 1 else 0) + 1 - ((truncateAndRound ds wo).1.length : Int)) := by
+  obtain ⟨l, h1, h2, h3⟩ := roundtrip_float_shape feats fmt wo po ds sci neg hv h10 ha hin hclear
+  exact ⟨l, h1, h2, digitsForm_value _ _ _ _ _ h3⟩
+
+/-- the writer's bytes never contain the format's digit-separator byte: they are in the scope of `Spec.Grammar`
+(and of C12, which relates the grammar to the parser model on separator-free inputs) -/
+theorem roundtrip_float_separatorFree (feats : Features) (fmt : Format) (wo : WOpts) (po : POpts) (ds : List Nat)
+    (sci : Int) (neg : Bool) (hv : FormatValid feats (unpack fmt.raw)) (h10 : fmt.mantissaRadix = 10)
+    (ha : OptionsAgree feats fmt wo po) (hin : WriterInput ds sci) :
+    separatorFree fmt (writerSign feats fmt neg ++ writeDecimal fmt feats ds sci wo) = true :=
+  writeDecimal_separatorFree feats fmt wo po ds sci neg hv h10 ha.dp ha.exp ha.punctuation ha.nonZero.1 hin
+
+/-- the list-level function of `Model.FormatDecimal` is the non-compact back-end with a decimal exponent radix -/
+theorem writeDecimal_eq_writeDigits (feats : Features) (fmt : Format) (ds : List Nat) (sci : Int) (wo : WOpts)
+    (hc : feats.compact = false) (her : (effFmt feats fmt).exponentRadix = 10) :
+    writeDecimal fmt feats ds sci wo = writeDigits (effFmt feats fmt) feats ds sci wo := by
+  simp [writeDecimal, hc, writeDigitsN, writeDigits, her]
+
+/-! ## concrete formats: every flag the writer honours, decided on the models -/
+
+def featsRF : Features := { radix := true, powerOfTwo := true, format := true }
+def featsCRF : Features := { compact := true, radix := true, powerOfTwo := true, format := true }
+/-- `rt_all_required`: required integer/fraction digits, mantissa sign, exponent notation, exponent sign,
+no exponent without fraction -/
+def fmtAllRequired : Format := ⟨0xa0a0a0000000000000000000000472f⟩
+/-- `rt_nopos_both`: no positive mantissa sign, no positive exponent sign -/
+def fmtNoPositive : Format := ⟨0xa0a0a0000000000000000000000009c⟩
+/-- `wf_noexp`: no exponent notation -/
+def fmtNoExp : Format := ⟨0xa0a0a0000000000000000000000004c⟩
+/-- `rt_csexp_reqexp`: case-sensitive exponent character, required exponent notation -/
+def fmtCsExp : Format := ⟨0xa0a0a0000000000000000000000c00c⟩
+/-- `rt_dec_er16`: decimal mantissa, exponent written in radix 16 -/
+def fmtExpRadix16 : Format := ⟨0x100a0a0000000000000000000000000c⟩
+
+theorem std_valid : FormatValid {} (unpack Format.standard.raw) := by unfold FormatValid; decide
+theorem allRequired_valid : FormatValid featsRF (unpack fmtAllRequired.raw) := by unfold FormatValid; decide
+
+theorem default_agree (feats : Features) (fmt : Format)
+    (h : OptionsPunctuationValid feats (unpack fmt.raw) 101 46) : OptionsAgree feats fmt {} {} :=
+  ⟨rfl, rfl, rfl, rfl, by decide, by decide, by decide, h⟩
+
+/-- non-vacuity of `roundtrip_float_shape`: the hypotheses hold for STANDARD / default options / `1.5e300`, and for the
+format with every "required" flag set (radix+format build) -/
+example :=
+  roundtrip_float_shape {} Format.standard {} {} [1, 5] 300 true std_valid (by decide)
+    (default_agree _ _ (by decide)) ⟨⟨by decide, by decide, by decide⟩, by decide⟩ (by decide)
+
+example :=
+  roundtrip_float_shape featsRF fmtAllRequired { trim := true } {} [7] 0 false allRequired_valid (by decide)
+    ⟨rfl, rfl, rfl, rfl, by decide, by decide, by decide, by decide⟩ ⟨⟨by decide, by decide, by decide⟩, by decide⟩
+    (by decide)
+
+/-- what is written, flag by flag (all `decide`d on the writer model and the grammar):
+* every required flag: `7` with `trim_floats` is `+7.0e+0` (sign, fraction kept because of
+  `no_exponent_without_fraction`, exponent notation, exponent sign) and is read as `7`;
+* without `no_exponent_without_fraction` the same value is the trimmed `7e0`;
+* no-positive-sign flags: no `+` anywhere (`1.5e300`), `-` is kept (`-2.5e-7`);
+* `no_exponent_notation`: `1.5e300` is written positionally (302 bytes) and accepted;
+* case-sensitive exponent with `E`: written `E`, accepted; * exponent radix 16: `1.5e300` is `1.5e12C`. -/
+theorem flags_honoured :
+    writerSign featsRF fmtAllRequired false ++ writeDecimal fmtAllRequired featsRF [7] 0 { trim := true }
+      = [43, 55, 46, 48, 101, 43, 48] ∧
+    grammarFloatComplete featsRF fmtAllRequired {} [43, 55, 46, 48, 101, 43, 48] = .num ⟨false, [7], [0], 0⟩ 7 ∧
+    writeDecimal fmtCsExp featsRF [7] 0 { trim := true, exp := 69 } = [55, 69, 48] ∧
+    grammarFloatComplete featsRF fmtCsExp { exp := 69 } [55, 69, 48] = .num ⟨false, [7], [], 0⟩ 3 ∧
+    grammarFloatComplete featsRF fmtCsExp { exp := 69 } [55, 101, 48] = .err ∧
+    writerSign featsRF fmtNoPositive false ++ writeDecimal fmtNoPositive featsRF [1, 5] 300 {}
+      = [49, 46, 53, 101, 51, 48, 48] ∧
+    grammarFloatComplete featsRF fmtNoPositive {} [49, 46, 53, 101, 51, 48, 48] = .num ⟨false, [1], [5], 300⟩ 7 ∧
+    grammarFloatComplete featsRF fmtNoPositive {} [43, 49, 46, 53, 101, 51, 48, 48] = .err ∧
+    grammarFloatComplete featsRF fmtNoPositive {}
+      (writerSign featsRF fmtNoPositive true ++ writeDecimal fmtNoPositive featsRF [2, 5] (-7) {})
+      = .num ⟨true, [2], [5], -7⟩ 7 ∧
+    (writeDecimal fmtNoExp featsRF [1, 5] 300 {}).length = 303 ∧
+    (match grammarFloatComplete featsRF fmtNoExp {} (writeDecimal fmtNoExp featsRF [1, 5] 300 {}) with
+      | .num l n => l.exp == 0 && n == 303 && l.fracDigits == [0] | _ => false) = true ∧
+    grammarFloatComplete featsRF fmtNoExp {} [49, 46, 53, 101, 51, 48, 48] = .err ∧
+    writeDecimal fmtExpRadix16 featsRF [1, 5] 300 { exp := 94 } = [49, 46, 53, 94, 49, 50, 67] ∧
+    grammarFloatComplete featsRF fmtExpRadix16 { exp := 94 } [49, 46, 53, 94, 49, 50, 67]
+      = .num ⟨false, [1], [5], 300⟩ 7 := by decide +kernel
+
+/-! ## finding: a case-insensitive base prefix swallows `0` + decimal point -/
+
+/-- `rt_prefix_x`: decimal, base prefix `x` (case-insensitive, the default) -/
+def fmtPrefixX : Format := ⟨0xa0a0a0078000000000000000000000c⟩
+/-- `rt_prefix_x_cs`: the same with `case_sensitive_base_prefix` -/
+def fmtPrefixXCs : Format := ⟨0xa0a0a0078000000000000000001000c⟩
+
+/-- **finding** (`PrefixClear` cannot be dropped): format = decimal with base prefix `x`, decimal point `X` on both
+sides.  The format is valid, the options are valid and agree, and pass the documented punctuation check (`X ≠ x`).
+`0.5` is written `0X5`; the grammar (and the parser, replayed on the implementation: `ok 4014000000000000` = 5.0)
+reads `0X` as the base prefix and the number as `5`.  Also `0e0` with exponent character `X` and `trim_floats`:
+`0X0` loses its exponent (`MissingExponent` under `required_exponent_notation`).  With a case-sensitive prefix the
+round trip holds. -/
+theorem finding_prefix_case :
+    FormatValid featsRF (unpack fmtPrefixX.raw) ∧
+    OptionsAgree featsRF fmtPrefixX { dp := 88 } { dp := 88 } ∧
+    ¬ PrefixClear featsRF fmtPrefixX 88 101 ∧
+    writerSign featsRF fmtPrefixX false ++ writeDecimal fmtPrefixX featsRF [5] (-1) { dp := 88 } = [48, 88, 53] ∧
+    grammarFloatComplete featsRF fmtPrefixX { dp := 88 } [48, 88, 53] = .num ⟨false, [5], [], 0⟩ 3 ∧
+    litBits f64 10 10 ⟨false, [5], [], 0⟩ = 0x4014000000000000 ∧
+    grammarFloatComplete featsRF fmtPrefixXCs { dp := 88 } [48, 88, 53] = .num ⟨false, [0], [5], 0⟩ 3 ∧
+    litBits f64 10 10 ⟨false, [0], [5], 0⟩ = 0x3fe0000000000000 := by
+  refine ⟨by unfold FormatValid; decide, ⟨rfl, rfl, rfl, rfl, by decide, by decide, by decide, by decide⟩,
+    by decide, by decide +kernel, by decide +kernel, by decide +kernel, by decide +kernel, by decide +kernel⟩
+
+/-! ## specials -/
+
+/-- **`roundtrip_special`** — NaN / ±infinity written with the configured string (`wo.nan` / `wo.inf`, equal to the
+parser's by `OptionsAgree`) after the writer's sign (`-` only for `-inf`; `+` when the format requires a sign) is
+derived by the grammar of the same format as the same special value, provided the format permits specials and the
+string's first byte cannot begin a number of the format (`NotNumberStart`: it is not a mantissa digit — so the
+string is not a digit string of the radix —, not the decimal point, not the exponent character, not the base suffix). -/
+theorem roundtrip_special (feats : Features) (fmt : Format) (wo : WOpts) (po : POpts) (isNan neg : Bool)
+    (c : Nat) (cs : List Nat) (hv : FormatValid feats (unpack fmt.raw))
+    (ha : OptionsAgree feats fmt wo po) (hns : (Syn.of feats fmt).noSpecial = false)
+    (hcfg : (if isNan then wo.nan else wo.inf) = some (c :: cs))
+    (hnn : NotNumberStart (Syn.of feats fmt) po c) :
+    grammarFloatComplete feats fmt po (writerSign feats fmt (neg && !isNan) ++ c :: cs) =
+      if isNan then .nan (writerSign feats fmt (neg && !isNan) ++ c :: cs).length
+      else .inf neg (writerSign feats fmt (neg && !isNan) ++ c :: cs).length := by
+  have hy := synFacts_of_valid feats fmt hv
+  have hsign := signOk_mant (Syn.of feats fmt) feats fmt (neg && !isNan) (syn_reqMantSign feats fmt) hy.mantSign
+  have hhead : c = 78 ∨ c = 110 ∨ c = 73 ∨ c = 105 := by
+    cases isNan with
+    | true =>
+      simp only [if_true] at hcfg
+      rw [ha.nan] at hcfg
+      rcases optionsError_nan po ha.parseValid _ hcfg with h | h <;> simp at h <;> omega
+    | false =>
+      simp only [Bool.false_eq_true, if_false] at hcfg
+      rw [ha.inf] at hcfg
+      rcases optionsError_inf po ha.parseValid _ hcfg with h | h <;> simp at h <;> omega
+  have key := grammar_special (Syn.of feats fmt) po (mantSign feats fmt (neg && !isNan)) isNan c cs hns hsign
+    (by omega) (by omega) hnn (by
+      cases isNan with
+      | true => simp only [if_true] at hcfg ⊢; rw [← ha.nan]; exact hcfg
+      | false =>
+        simp only [Bool.false_eq_true, if_false] at hcfg ⊢
+        rw [ha.inf] at hcfg
+        exact ⟨hcfg, fun t ht => inf_ne_nan _ po ha.parseValid _ _ hcfg ht⟩)
+  unfold grammarFloatComplete writerSign
+  rw [key]
+  cases isNan with
+  | true => rfl
+  | false =>
+    simp only [Bool.false_eq_true, if_false, Bool.not_false, Bool.and_true]
+    congr 1
+    unfold mantSign
+    cases neg <;> cases mantPlus feats fmt <;> rfl
+
+/-- in a decimal format the letters `N n I i` are never digits: `NotNumberStart` is three punctuation inequalities -/
+theorem notNumberStart_decimal (feats : Features) (fmt : Format) (po : POpts) (c : Nat)
+    (h10 : fmt.mantissaRadix = 10) (hc : c = 78 ∨ c = 110 ∨ c = 73 ∨ c = 105) (hdp : c ≠ po.dp)
+    (hexp : matchByte (Syn.of feats fmt).csExp po.exp c = false)
+    (hsuf : ((Syn.of feats fmt).suf ≠ 0 && matchByte (Syn.of feats fmt).csSuffix (Syn.of feats fmt).suf c) = false) :
+    NotNumberStart (Syn.of feats fmt) po c := by
+  refine ⟨by omega, ?_, hdp, hexp, hsuf⟩
+  rw [syn_radix, h10]
+  rcases hc with rfl | rfl | rfl | rfl <;> decide
+
+/-- non-vacuity of `roundtrip_special` (STANDARD, default strings): `NaN`, `-inf` -/
+example : grammarFloatComplete {} Format.standard {} (writerSign {} Format.standard (true && !true) ++ [78, 97, 78]) = .nan 3 :=
+  roundtrip_special {} Format.standard {} {} true true 78 [97, 78] std_valid (default_agree _ _ (by decide)) (by decide) rfl
+    (notNumberStart_decimal _ _ _ _ (by decide) (by decide) (by decide) (by decide) (by decide))
+
+example : grammarFloatComplete {} Format.standard {} (writerSign {} Format.standard (true && !false) ++ [105, 110, 102]) = .inf true 4 :=
+  roundtrip_special {} Format.standard {} {} false true 105 [110, 102] std_valid (default_agree _ _ (by decide)) (by decide) rfl
+    (notNumberStart_decimal _ _ _ _ (by decide) (by decide) (by decide) (by decide) (by decide))
+
+/-- the exclusion is needed: in radix 36 `inf` is a digit string and is read as the number 24495 (`i`=18, `n`=23,
+`f`=15), not as infinity; with `i` as the exponent character of a decimal format `inf` is not a number and is
+still read as infinity (the hypothesis is sufficient, not necessary) -/
+theorem special_digit_string_is_number :
+    grammarFloatComplete featsRF ⟨0x24242400000000000000000000000000c⟩ { exp := 94 } [105, 110, 102]
+      = .num ⟨false, [18, 23, 15], [], 0⟩ 3 ∧
+    grammarFloatComplete {} Format.standard { exp := 105 } [105, 110, 102] = .inf false 3 := by decide +kernel
+
+/-- `flag_no_required_mantissa_digits`: decimal, only exponent digits required -/
+def fmtNoReqMant : Format := ⟨0xa0a0a00000000000000000000000004⟩
+
+/-- **finding** (`NotNumberStart.notPoint` cannot be dropped): nothing relates the special strings to the punctuation
+characters — `nan_string = "N"` and `decimal_point = 'N'` are each valid and pass every check.  In a format that does
+not require mantissa digits, the text `N` written for NaN is the number `.` (no digits: zero), for the grammar and
+for the parser (replayed on the implementation: `ok 0`).  With mantissa digits required the same text is NaN. -/
+theorem finding_special_is_point :
+    FormatValid featsRF (unpack fmtNoReqMant.raw) ∧
+    OptionsAgree featsRF fmtNoReqMant { nan := some [78], dp := 78 } { nan := some [78], dp := 78 } ∧
+    (Syn.of featsRF fmtNoReqMant).noSpecial = false ∧
+    writerSign featsRF fmtNoReqMant (true && !true) ++ [78] = [78] ∧
+    grammarFloatComplete featsRF fmtNoReqMant { nan := some [78], dp := 78 } [78] = .num ⟨false, [], [], 0⟩ 1 ∧
+    grammarFloatComplete featsRF ⟨0xa0a0a0000000000000000000000000c⟩ { nan := some [78], dp := 78 } [78] = .nan 1 := by
+  refine ⟨by unfold FormatValid; decide, ⟨rfl, rfl, rfl, rfl, by decide, by decide, by decide, by decide⟩,
+    by decide, by decide +kernel, by decide +kernel, by decide +kernel⟩
+
+/-! ## signed zero -/
+
+/-- **`roundtrip_signed_zero`** — `±0` (digits `[0]`, exponent 0) in whatever notation the format and options select
+(`0.0`, `-0.0`, `0`, `0.0e0`, `+0e+0`, `0.000`, …) is read back as a number of value zero with the written sign:
+`litBits` of the literal is the sign bit or `0`. -/
+theorem roundtrip_signed_zero (f : Fmt) (feats : Features) (fmt : Format) (wo : WOpts) (po : POpts) (neg : Bool)
+    (hv : FormatValid feats (unpack fmt.raw)) (h10 : fmt.mantissaRadix = 10)
+    (ha : OptionsAgree feats fmt wo po) (hclear : PrefixClear feats fmt po.dp po.exp) :
+    ∃ l : FloatLit,
+      grammarFloatComplete feats fmt po (writerSign feats fmt neg ++ writeDecimal fmt feats [0] 0 wo) =
+        .num l (writerSign feats fmt neg ++ writeDecimal fmt feats [0] 0 wo).length ∧
+      litBits f fmt.mantissaRadix fmt.exponentBase l = if neg then f.signBit else 0 := by
+  obtain ⟨l, h1, h2, lz, z, h3, _⟩ := roundtrip_float_shape feats fmt wo po [0] 0 neg hv h10 ha
+    ⟨⟨by simp, by simp, by simp⟩, fun _ => rfl⟩ hclear
+  refine ⟨l, h1, ?_⟩
+  rw [LexVerif.Props.RoundNE.litBits_zero f _ _ l, h2]
+  intro d hd
+  rw [h3, truncateAndRound_zero wo ha.nonZero.1] at hd
+  simp only [List.mem_append, List.mem_replicate, List.mem_singleton] at hd
+  rcases hd with (hd | hd) | hd
+  · exact hd.2
+  · exact hd
+  · exact hd.2
+
+/-- non-vacuity: `-0.0` under STANDARD -/
+example :=
+  roundtrip_signed_zero f64 {} Format.standard {} {} true std_valid (by decide) (default_agree _ _ (by decide)) (by decide)
+
+example : writerSign {} Format.standard true ++ writeDecimal Format.standard {} [0] 0 {} = [45, 48, 46, 48] := by
+  decide +kernel
+
+/-! ## the same, for whatever the buffer-faithful `write_float` model returns -/
+
+/-- **`roundtrip_float_model`** — every completed call of the `WriteFloat::write_float` model (`.done w`: the buffer
+assertion, the format validity assertion and the mixed-radix assertion passed, nothing panicked) on a finite value of
+a decimal format returns a slice that the documented grammar of the same format derives in full as a number with the
+value's sign, the rounded digits and the carried exponent.  Format validity is what `write_float` itself asserts
+(`isValid`, equal to `FormatValid` by C18). -/
+theorem roundtrip_float_model (feats : Features) (f : Fmt) (fmt : Format) (wo : WOpts) (po : POpts) (debug : Bool)
+    (bits : Nat) (ds : List Nat) (sci : Int) (buf : List Nat) (w : Written)
+    (h : writeFloat feats f fmt wo debug bits (ds, sci) buf = .done w)
+    (hfin : f.isSpecial bits = false) (h10 : fmt.mantissaRadix = 10)
+    (ha : OptionsAgree feats fmt wo po) (hin : WriterInput ds sci) (hclear : PrefixClear feats fmt po.dp po.exp) :
+    ∃ l : FloatLit,
+      grammarFloatComplete feats fmt po (w.bytes.take w.len) = .num l (w.bytes.take w.len).length ∧
+      l.neg = f.isNeg bits ∧
+      DigitsForm l.intDigits l.fracDigits l.exp (truncateAndRound ds wo).1
+        (sci + (if (truncateAndRound ds wo).2 then 1 else 0)) := by
+  have hds : 1 ≤ ds.length := by
+    cases ds with
+    | nil => exact absurd rfl hin.ok.ne
+    | cons a b => simp
+  obtain ⟨htext, hvalid, _, _⟩ := writeFloat_done_text feats f fmt wo debug bits ds sci buf w hds ha.nonZero.1 h
+  have hv := (LexVerif.Props.C18.isValid_spec feats fmt.raw).mp hvalid
+  have hnan : f.isNaN bits = false := by simp [Fmt.isNaN, hfin]
+  have hbody : bodyText feats f fmt wo bits ds sci = writeDecimal fmt feats ds sci wo := by
+    simp [bodyText, hfin]
+  have hsign : signText feats f fmt bits = writerSign feats fmt (f.isNeg bits) := by
+    rw [signText_eq, hnan]; simp [writerSign]
+  rw [htext, hbody, hsign]
+  exact roundtrip_float_shape feats fmt wo po ds sci (f.isNeg bits) hv h10 ha hin hclear
+
+/-- **`roundtrip_special_model`** — a completed call on a special value returns a slice the grammar derives as the same
+special value (NaN as NaN; infinity with its sign) -/
+theorem roundtrip_special_model (feats : Features) (f : Fmt) (fmt : Format) (wo : WOpts) (po : POpts) (debug : Bool)
+    (bits : Nat) (ds : List Nat) (sci : Int) (buf : List Nat) (w : Written)
+    (h : writeFloat feats f fmt wo debug bits (ds, sci) buf = .done w) (hds : 1 ≤ ds.length)
+    (hsp : f.isSpecial bits = true) (ha : OptionsAgree feats fmt wo po)
+    (hns : (Syn.of feats fmt).noSpecial = false)
+    (hnn : ∀ c cs, (if f.isNaN bits then wo.nan else wo.inf) = some (c :: cs) → NotNumberStart (Syn.of feats fmt) po c) :
+    grammarFloatComplete feats fmt po (w.bytes.take w.len) =
+      if f.isNaN bits then .nan (w.bytes.take w.len).length
+      else .inf (f.isNeg bits) (w.bytes.take w.len).length := by
+  obtain ⟨htext, hvalid, _, hcfg⟩ := writeFloat_done_text feats f fmt wo debug bits ds sci buf w hds ha.nonZero.1 h
+  have hv := (LexVerif.Props.C18.isValid_spec feats fmt.raw).mp hvalid
+  have hcfg' := hcfg hsp
+  have hbody : bodyText feats f fmt wo bits ds sci = (if f.isNaN bits then wo.nan else wo.inf).getD [] := by
+    unfold bodyText
+    simp only [hsp, not_true_eq_false, if_false]
+    cases f.isNaN bits <;> simp
+  cases hs : (if f.isNaN bits then wo.nan else wo.inf) with
+  | none => exact absurd hs hcfg'
+  | some t =>
+    -- valid options: the string is non-empty
+    have hne : t ≠ [] := by
+      intro ht
+      subst ht
+      cases hn : f.isNaN bits with
+      | true =>
+        rw [hn] at hs; simp only [if_true] at hs
+        rw [ha.nan] at hs
+        rcases optionsError_nan po ha.parseValid _ hs with h' | h' <;> simp at h'
+      | false =>
+        rw [hn] at hs; simp only [Bool.false_eq_true, if_false] at hs
+        rw [ha.inf] at hs
+        rcases optionsError_inf po ha.parseValid _ hs with h' | h' <;> simp at h'
+    obtain ⟨c, cs, rfl⟩ : ∃ c cs, t = c :: cs := by
+      cases t with
+      | nil => exact absurd rfl hne
+      | cons c cs => exact ⟨c, cs, rfl⟩
+    have key := roundtrip_special feats fmt wo po (f.isNaN bits) (f.isNeg bits) c cs hv ha hns hs (hnn c cs hs)
+    rw [htext, hbody, hs, signText_eq]
+    exact key
+
+/-! ## decimal value corollary -/
+
+/-- **C02's open part, as the single hypothesis of the value round trip**: the decimal digit generator of the writer
+(Dragonbox / Grisu) returns, for the magnitude `mbits` (finite, non-zero), canonical digits `ds` and a scientific
+exponent `sci` such that `ds · 10^(sci + 1 − |ds|)` is (the value of) one of `Spec.shortest f mbits`. -/
+structure WriterDigitsShortest (f : Fmt) (mbits : Nat) (ds : List Nat) (sci : Int) : Prop where
+  canonical : DigitsOk ds
+  shortest : ∃ D E, (D, E) ∈ shortest f mbits ∧
+    (D : ℚ) * (10 : ℚ) ^ E = (ofDigits 10 ds : ℚ) * (10 : ℚ) ^ (sci + 1 - (ds.length : Int))
+
+/-- **`roundtrip_decimal_value`** = shape theorem ∘ (digits are `Spec.shortest`) ∘ `shortest_roundtrips`: without
+digit truncation (`max_significant_digits` unset; `min_significant_digits`, `trim_floats`, the breaks and every
+format flag are free) the bits read back (`Spec.litBits` of the literal the grammar derives — what the
+specification column of a `pf` op renders) are the bits written, sign included.  `FmtRange f` (instances
+`fmtRange_f32`, `fmtRange_f64`) says that the type's finite range lies inside `(10^-1200, 10^1100)`. -/
+theorem roundtrip_decimal_value (f : Fmt) (hf : WF f) (hrange : FmtRange f) (feats : Features) (fmt : Format)
+    (wo : WOpts) (po : POpts) (mbits : Nat) (ds : List Nat) (sci : Int) (neg : Bool)
+    (hv : FormatValid feats (unpack fmt.raw)) (h10 : fmt.mantissaRadix = 10) (hbase : fmt.exponentBase = 10)
+    (ha : OptionsAgree feats fmt wo po) (hclear : PrefixClear feats fmt po.dp po.exp) (hmax : wo.maxDigits = none)
+    (h0 : 0 < mbits) (hfin : mbits < f.infBits) (hW : WriterDigitsShortest f mbits ds sci) :
+    ∃ l : FloatLit,
+      grammarFloatComplete feats fmt po (writerSign feats fmt neg ++ writeDecimal fmt feats ds sci wo) =
+        .num l (writerSign feats fmt neg ++ writeDecimal fmt feats ds sci wo).length ∧
+      litBits f fmt.mantissaRadix fmt.exponentBase l = mbits + (if neg then f.signBit else 0) := by
+  obtain ⟨D, E, hmem, hval⟩ := hW.shortest
+  have hrt : roundNE f (decFrac (ofDigits 10 ds) (sci + 1 - (ds.length : Int))).1
+      (decFrac (ofDigits 10 ds) (sci + 1 - (ds.length : Int))).2 = mbits := by
+    rw [← LexVerif.Props.RoundNE.shortest_roundtrips hf h0 hfin hmem]
+    apply LexVerif.Props.RoundNE.roundNE_congr hf (decFrac_den_pos _ _) (decFrac_den_pos _ _)
+    rw [decFrac_Q, decFrac_Q]
+    exact hval.symm
+  have hD : ofDigits 10 ds ≠ 0 := by
+    intro hz
+    rw [hz] at hrt
+    have : (decFrac 0 (sci + 1 - (ds.length : Int))).1 = 0 := by unfold decFrac; split <;> simp
+    rw [this, roundNE_zero] at hrt
+    omega
+  have hin : WriterInput ds sci := by
+    refine ⟨hW.canonical, ?_⟩
+    intro h; subst h; exact absurd rfl hD
+  obtain ⟨l, h1, h2, h3⟩ := roundtrip_float_shape feats fmt wo po ds sci neg hv h10 ha hin hclear
+  rw [truncateAndRound_none ds wo hmax] at h3
+  simp only [Bool.false_eq_true, if_false, Int.add_zero] at h3
+  refine ⟨l, h1, ?_⟩
+  rw [h10, hbase, litBits_of_form hf hrange l ds sci h3 hW.canonical.lt mbits h0 hfin hrt, h2]
+
+/-- non-vacuity of `WriterDigitsShortest` / `roundtrip_decimal_value`: `0.3` (f64 `0x3fd3333333333333`) has the
+shortest digits `[3]` at exponent `-1`; written under the all-required format it is `+3.0e-1` and reads back. -/
+theorem shortest_three_tenths : WriterDigitsShortest f64 0x3fd3333333333333 [3] (-1) :=
+  ⟨⟨by decide, by decide, by decide⟩, 3, -1, by decide +kernel, by norm_num [ofDigits]⟩
+
+example :=
+  roundtrip_decimal_value f64 wf_f64 fmtRange_f64 featsRF fmtAllRequired {} {} 0x3fd3333333333333 [3] (-1) false
+    allRequired_valid (by decide) (by decide) ⟨rfl, rfl, rfl, rfl, by decide, by decide, by decide, by decide⟩
+    (by decide) rfl (by decide) (by decide) shortest_three_tenths
+
+/-- … and the instance computed: `+3.0e-1` reads back as `0x3fd3333333333333` -/
+example : (match grammarFloatComplete featsRF fmtAllRequired {} (writerSign featsRF fmtAllRequired false ++
+      writeDecimal fmtAllRequired featsRF [3] (-1) {}) with
+    | .num l _ => litBits f64 10 10 l | _ => 0) = 0x3fd3333333333333 := by decide +kernel
 
 end LexVerif.Props.C08
